@@ -8,6 +8,14 @@ TRUST = ("TLC; the reading of MCNP/TRIPOLI-4 semantics written down in DESIGN.md
          "(harness/vt4/shim.py) standing in for TatSu; the .t4 tokenizer and numeric SURF evaluator "
          "(harness/vt4/t4file.py); the concretiser that spells abstract decks as MCNP text")
 CHECKS = {
+ 'C14': dict(cat='model_checking', ref='6/C14',
+   text=("Cards.tla is a line-level machine: a reference reader of deck text (comment lines, 5-blank and & continuation, $ "
+         "comments, 8-column tab stops, message block, case, nR) and rewrite actions (case, blanks/tabs, both kinds of "
+         "continuation, comment lines, in-line comments, message block, number spellings, repeat shorthand); TLC checks that "
+         "every rewrite preserves the reference reading (SameMeaning), exhaustively for single rewrites and on sampled "
+         "sequences up to depth 6; each explored text is read by the real get_cards()/Card.content() and converted, and "
+         "TraceCards.tla compares card segmentation and outputs with the seed's."),
+   technique='TLA+ line machine with reference reader and rewrite actions (Cards.tla) explored by TLC; explored texts replayed into the real reader and converter, validated by TLC (TraceCards.tla)'),
  'C18': dict(cat='model_checking', ref='6/C18',
    text=("Session.tla enumerates every history of Convert(deck, options) calls up to length 3 over 6 decks (plain, FILL with "
          "cache reuse, same numbers with other definitions under the same transformations, lattice with --lattice, LIKE-BUT, "
